@@ -43,7 +43,7 @@ class FnSpec:
     """Contract for one function (insert-only)."""
 
     def __init__(self, ret=None, sig="", loops=None, at=None, ghost=False, body_start="",
-                 rewrites=None, attrs="", no_unwind=True, generics=None, try_explicit=False, names=None):
+                 rewrites=None, attrs="", no_unwind=True, generics=None, try_explicit=False, names=None, shape_free=False):
         self.ret = ret            # name for the return value:  -> T   becomes  -> (ret: T)
         self.sig = sig            # requires/ensures/decreases text, inserted before the body `{`
         self.loops = loops or {}  # ordinal (1-based) -> invariant/decreases text, before loop body `{`
@@ -52,6 +52,7 @@ class FnSpec:
         self.body_start = body_start  # proof text inserted right after the body's `{`
         self.rewrites = rewrites or []  # list of (rule, regex, replacement[, count]) applied to the fn text
         self.attrs = attrs        # attributes inserted before the fn (e.g. #[verifier::...])
+        self.shape_free = shape_free  # the loop contract is anchored on effects, not on the loop's shape: it decides restructured loops too
         self.names = names or {}  # placeholder -> regex with one group, matched on the fn text: `$placeholder` in sig / loops / at / anchors
         #                           stands for the captured name (a local variable), so that renaming the local keeps the contract
         self.try_explicit = try_explicit  # T-TRY: write `E?` out as its match (the installed Verus knows nothing of the converted error of `?`)
@@ -499,11 +500,13 @@ class Piece:
                                 continue
                             if toks[i].text == "break" and toks[i + 1].text != ";":
                                 e = i + 1
-                                while toks[e].text != ";":
+                                while toks[e].text not in (";", ",", "}"):
                                     if toks[e].text in OPEN:
                                         e = match_close(toks, e)
                                     e += 1
-                                edits.append((toks[i].start, toks[e].end, "{ brk__ = Some(" + text[toks[i + 1].start:toks[e].start] + "); break; }"))
+                                # `break E;` (a statement) or `break E,` / `break E }` (the value of a match arm / the tail of a block)
+                                end = toks[e].end if toks[e].text == ";" else toks[e].start
+                                edits.append((toks[i].start, end, "{ brk__ = Some(" + text[toks[i + 1].start:toks[e].start] + "); break; }"))
                                 i = e
                             i += 1
                         if not edits:
@@ -663,6 +666,11 @@ class Piece:
                 if toks[k].text == "PathBuf" and toks[k + 1].text == ":" and toks[k + 2].text == ":" and toks[k + 3].text == "from" and toks[k + 4].text == "(" \
                         and toks[k - 1].text != ":":
                     self._add(toks[k].start, toks[k + 3].end, "crate::vpath::to_path", "T-STR", order=-99)
+        # T-CONST: a function-local `const NAME: &T = ..;` gets the `'static` the elision stands for (Verus wants it written)
+        for k in range(kb + 1, k1 - 4):
+            if toks[k].text == "const" and toks[k + 1].kind == "ident" and toks[k + 2].text == ":" and toks[k + 3].text == "&" \
+                    and toks[k + 4].kind != "lifetime" and toks[k - 1].text in (";", "{", "}"):
+                self._add(toks[k + 3].end, toks[k + 3].end, "'static ", "T-CONST")
         # T-STATIC: a function-local `static NAME: TYPE = INIT;` keeps its content from one call to the next: within one call it is a
         # local whose content at entry is unknown (OnceLock is modelled in prelude stdx)
         if "stdx" in self.unit.preludes:
@@ -869,6 +877,41 @@ class Piece:
             kw, ko = lps[ordinal - 1]
             self._add(toks[ko].start, toks[ko].start, "\n" + text + "\n", "insert")
         self.nloops = len(lps)
+        # the control skeleton of each loop: kind + the jumps out of / around its body, in order.  A loop contract (invariant, loop
+        # ensures) is written for one skeleton; when a loop has been restructured, failures in the function are not verdicts.
+        sig_parts = []
+        for (kw_, ko_) in lps:
+            kc_ = match_close(toks, ko_)
+            inner = [t_.text for t_ in toks[ko_ + 1:kc_] if (t_.kind == "ident" and t_.text in ("break", "continue", "return", "loop", "for", "while")) or t_.text == "?"]
+            valued = "=" if (toks[kw_ - 1].text == "=" or any(t_.text == "brk__" for t_ in toks[ko_ + 1:kc_])) else ""
+            sig_parts.append(valued + toks[kw_].text + ":" + ",".join(inner))
+        lsig = "|".join(sig_parts)
+        lkey = f"{self.relpath}::{self.spec}::{fn.name}"
+        self.unit.loopsigs[lkey] = lsig
+        want_sig = self.unit.baseline_loopsigs.get(lkey)
+        def _same_but_more_exits(a, b):
+            # b is a with further `?` / return / break exits only (same loops, same kinds): the contract of a still fits b,
+            # and the new exits are checked against the function's postconditions like any other
+            pa, pb = a.split("|"), b.split("|")
+            if len(pa) != len(pb):
+                return False
+            for x, y in zip(pa, pb):
+                hx, _, jx = x.partition(":")
+                hy, _, jy = y.partition(":")
+                if hx != hy:
+                    return False
+                lx, ly = [t for t in jx.split(",") if t], [t for t in jy.split(",") if t]
+                it_ = iter(ly)
+                if not all(any(t == u for u in it_) for t in lx):   # lx must be a subsequence of ly
+                    return False
+                extra = list(ly)
+                for t in lx:
+                    extra.remove(t)
+                if any(t in ("loop", "for", "while", "continue") for t in extra):
+                    return False
+            return True
+        if want_sig is not None and want_sig != lsig and not getattr(fs, "shape_free", False) and not _same_but_more_exits(want_sig, lsig):
+            self.unit.reshaped.add(fn.name)
         self.unit.shapes[f"{self.relpath}::{self.spec}::{fn.name}"] = len(lps)
         want = self.unit.baseline_shapes.get(f"{self.relpath}::{self.spec}::{fn.name}")
         if want is not None and want != len(lps):
@@ -1281,6 +1324,12 @@ class Unit:
             self.baseline_fns = _json.load(open(os.path.join(VERIF, "baseline_shapes.json"))).get("__fns__", {})
         except Exception:
             self.baseline_fns = {}
+        try:
+            self.baseline_loopsigs = _json.load(open(os.path.join(VERIF, "baseline_shapes.json"))).get("__loopsig__", {}).get(name, {})
+        except Exception:
+            self.baseline_loopsigs = {}
+        self.loopsigs = {}
+        self.reshaped = set()   # functions whose loops have another control skeleton than the one their contracts were written for
         self.macro_fns = {}  # name -> call template (T-MACRO-FN: the macro body lives in a verified helper fn)
         self.vacuity = False
         self.vacuity_expected = []
